@@ -9,6 +9,10 @@ C07 driver. Case lines (after the leading `C07` token):
 * `rep <raw> <ops> <self> <before> <msgs> => <after>`
 
 * `cfg <raw> => <trustAll 0|1> <TrustedPeers> <trusted_peers printed by ToJSON>`
+* `pol <steps> => <nil | overrides against the shipped table> <ok|err>`  (cluster `Config.RPCPolicy` after the steps, `Validate()`)
+* `polrpc <steps> <t|u> <Svc.Method> => <refused|passed>`  (remote caller, trusted or not, against the server built from that `Config`)
+`steps`: `/`-separated `D` Default(), `L[entries]` LoadJSON of a valid file that also carries a policy object, `E[entries]`
+ApplyEnvVars with policy variables set, `F` the assignments of ipfs-cluster-follow; `entries`: `Name:<int>,…`.
 `raw`: where the crdt configuration comes from: sources separated by `/`: `D` Default(), `L<list>` LoadJSON of a
 file with that trusted_peers, `E<list>` ApplyEnvVars with CLUSTER_CRDT_TRUSTEDPEERS=<list>, `A` ApplyEnvVars with
 the variable unset; a bare `<list>` is `L<list>`. `<list>`: comma separated, `*` or a peer index, `-` for none.
@@ -100,7 +104,7 @@ def answerRpc (pre post : List String) : String :=
         (if !registered then "no-endpoint" else
           match Gen.closure.verdict pol ep with | .deny => "closed" | .askTrust => "trusted" | .allow => "open")
         ++ (if k == .custom then "/custom" else "") ++ (if tr then "/tracing" else "")
-      let failed := failedNames (rpcClauses i o)
+      let failed := failedNames (rpcClauses i o) ++ failedNames (rpcCfgClauses (lookup pol ep) i o)
       if !failed.isEmpty then "propfail " ++ ",".intercalate failed ++ " arm=" ++ arm else
       let expected : Obs := modelObs i ovs
       if o != expected then "diff arm=" ++ arm ++ " model=" ++ showObs expected
@@ -181,6 +185,71 @@ def answerCfg (pre post : List String) : String :=
       else "ok arm=" ++ arm
   | _, _ => "bad-case cfg-arity"
 
+def parseEntry (s : String) : Option (String × Int) :=
+  match s.splitOn ":" with
+  | [k, v] => v.toInt?.map (fun x => (k, x))
+  | _ => none
+
+def parsePSource (s : String) : Option PSource :=
+  if s == "D" then some .default
+  else if s == "F" then some .follower
+  else if s.startsWith "L" then (listOf parseEntry (if s.length == 1 then "-" else (s.drop 1).toString)).map .load
+  else if s.startsWith "E" then (listOf parseEntry (if s.length == 1 then "-" else (s.drop 1).toString)).map .env
+  else none
+
+def parsePSrcs (s : String) : Option (List PSource) := if s == "-" then some [] else (s.splitOn "/").mapM parsePSource
+
+def sameTable (a b : Policy) : Bool :=
+  (a ++ b).all (fun e => lookup a e.1 == lookup b e.1)
+
+def polArm (srcs : List PSource) : String :=
+  (if srcs.any (fun s => match s with | .load (_ :: _) => true | _ => false) then "file-entries" else "plain")
+  ++ (if srcs.any (fun s => match s with | .env (_ :: _) => true | _ => false) then "+env-entries" else "")
+  ++ (if srcs.contains .follower then "+follower" else "")
+  ++ (if modelInstalled srcs then "" else "/nil")
+
+/-- `pol <steps> => <nil | diff of Config.RPCPolicy against the shipped table> <Validate ok|err>` -/
+def answerPol (pre post : List String) : String :=
+  match pre, post with
+  | [srcs], [diff, valid] =>
+    match (do
+      let srcs ← parsePSrcs srcs
+      let diff ← if diff == "nil" then some none else (listOf parseOv diff).map some
+      pure (srcs, diff)) with
+    | none => "bad-case pol-parse"
+    | some (srcs, diff) =>
+      let table : Policy := match diff with | none => [] | some d => applyOverrides Gen.policy d
+      let expected := modelPolicy srcs
+      let expValid := if modelInstalled srcs && policyValid Gen.validatedMethods expected then "ok" else "err"
+      let arm := "pol-" ++ polArm srcs
+      let failed := failedNames (polClauses table)
+      if !failed.isEmpty then "propfail " ++ ",".intercalate failed ++ " arm=" ++ arm
+      else if (diff.isNone != !modelInstalled srcs) || !sameTable table expected then "diff arm=" ++ arm ++ " model=" ++
+        (if modelInstalled srcs then "table-with-" ++ toString ((expected.filter (fun e => lookup Gen.policy e.1 != some e.2)).length) ++ "-changes" else "nil")
+      else if valid != expValid then "diff arm=" ++ arm ++ " model=validate-" ++ expValid
+      else "ok arm=" ++ arm
+  | _, _ => "bad-case pol-arity"
+
+/-- `polrpc <steps> <t|u> <Svc.Method> => <refused|passed> [detail]` -/
+def answerPolRpc (pre post : List String) : String :=
+  match pre, post with
+  | [srcs, cls, ep], o :: _ =>
+    match (do
+      let srcs ← parsePSrcs srcs
+      let t ← if cls == "t" then some true else if cls == "u" then some false else none
+      let o ← if o == "refused" then some Obs.refused else if o == "passed" then some Obs.passed else none
+      pure (srcs, t, o)) with
+    | none => "bad-case polrpc-parse"
+    | some (srcs, t, o) =>
+      let i : PolRpcInput := { srcs := srcs, trusted := t, ep := ep }
+      let arm := "polrpc-" ++ polArm srcs ++ (if t then "/trusted/" else "/untrusted/") ++
+        (match Gen.closure.verdict (modelPolicy srcs) ep with | .deny => "closed" | .askTrust => "trusted" | .allow => "open")
+      let failed := failedNames (polRpcClauses i o) ++ failedNames (polRpcCfgClauses i o)
+      if !failed.isEmpty then "propfail " ++ ",".intercalate failed ++ " arm=" ++ arm
+      else if o != modelPolObs i then "diff arm=" ++ arm ++ " model=" ++ showObs (modelPolObs i)
+      else "ok arm=" ++ arm
+  | _, _ => "bad-case polrpc-arity"
+
 /-- answer for one case line (tokens after the leading "C07") -/
 def answer (ws : List String) : String :=
   match ws with
@@ -193,6 +262,8 @@ def answer (ws : List String) : String :=
       else if kind == "valid" then answerValid pre post
       else if kind == "rep" then answerRep pre post
       else if kind == "cfg" then answerCfg pre post
+      else if kind == "pol" then answerPol pre post
+      else if kind == "polrpc" then answerPolRpc pre post
       else "bad-case unknown-kind"
   | [] => "bad-case empty"
 
